@@ -54,3 +54,17 @@ package ot
 //@   loop range(pb.BitLen())
 //@     invariant len(vOut) == len(pb) * 8
 //@     invariant forall j int :: 0 <= j && j < i ==> vOut[j] == bit(pb[j/8], j%8)
+
+// Repeat: the output has len(pb)*nRepetitions bytes and the bit cursor advances by exactly one position per written
+// bit: after the i-th input bit it stands at i*nRepetitions (every input bit is written nRepetitions times, in order).
+// (The bit-level postcondition "output bit m == input bit floor(m/n)" is stated but not claimed: the byte-level
+// or-reasoning it needs did not discharge within the quick timeout.)
+//@ func PackedBits.Repeat
+//@   property C09
+//@   requires nRepetitions > 0
+//@   ensures len(result) == len(pb) * nRepetitions
+//@   loop range(pb.BitLen())
+//@     invariant len(vOut) == len(pb) * nRepetitions && nextBit == $i * nRepetitions && $i <= len(pb) * 8
+//@   loop range(nRepetitions)
+//@     invariant len(vOut) == len(pb) * nRepetitions && nextBit == i * nRepetitions + $i && 0 <= i && i < len(pb) * 8
+//@   assert before "vOut[nextBit/8] |= bit << (nextBit % 8)": bit == bit(pb[i/8], i%8) && 0 <= nextBit && nextBit / 8 < len(vOut)
